@@ -15,6 +15,7 @@ import (
 	"strings"
 
 	zed "github.com/brimdata/super"
+	astzed "github.com/brimdata/super/compiler/ast/zed"
 	"github.com/brimdata/super/zson"
 	"github.com/x448/float16"
 )
@@ -205,16 +206,63 @@ func caseHazards(cs *rtCase) *hazards {
 
 var pairHazardMemo = map[string]string{}
 
+// pairHazard: does the real lexer read `key:value` — both written without decorators, as
+// inside a value whose type is known — back as these two primitives?
 func pairHazard(t *TSpec, k, x *VSpec) string {
-	key := t.Descr() + "|" + k.Hex + "|" + x.Hex
+	kt, _ := zed.LookupPrimitiveByID(t.Elems[0].ID)
+	xt, _ := zed.LookupPrimitiveByID(t.Elems[1].ID)
+	kb, _ := hex.DecodeString(k.Hex)
+	xb, _ := hex.DecodeString(x.Hex)
+	if kb == nil {
+		kb = []byte{}
+	}
+	if xb == nil {
+		xb = []byte{}
+	}
+	ktext := zson.FormatPrimitive(kt, kb)
+	xtext := zson.FormatPrimitive(xt, xb)
+	if t.Elems[0].ID == idIP && len(kb) == 16 {
+		ktext += " " // the formatter separates a 16-byte IP key from the colon
+	}
+	key := ktext + "\x00" + xtext
 	if r, ok := pairHazardMemo[key]; ok {
 		return r
 	}
-	r := ""
-	res := runRT(&rtCase{Mode: "value", Vals: []tv{{t, &VSpec{Elems: []*VSpec{k, x}}}}})
-	if !res.ok && res.class == "parse-error" && strings.HasPrefix(res.detail, "parse error") {
-		r = "map-entry-lexer-ambiguity"
-	}
+	r := "map-entry-lexer-ambiguity"
+	func() {
+		defer func() { recover() }()
+		a, err := zson.NewParser(strings.NewReader("|{" + ktext + ":" + xtext + "}|")).ParseValue()
+		if err != nil || a == nil {
+			return
+		}
+		iv, ok := a.(*astzed.ImpliedValue)
+		if !ok {
+			return
+		}
+		mp, ok := iv.Of.(*astzed.Map)
+		if !ok || len(mp.Entries) != 1 {
+			return
+		}
+		prim := func(v astzed.Value) (string, bool) {
+			i2, ok := v.(*astzed.ImpliedValue)
+			if !ok {
+				return "", false
+			}
+			p, ok := i2.Of.(*astzed.Primitive)
+			if !ok {
+				return "", false
+			}
+			if p.Type == "string" {
+				return zson.QuotedString([]byte(p.Text)), true
+			}
+			return p.Text, true
+		}
+		kk, ok1 := prim(mp.Entries[0].Key)
+		xx, ok2 := prim(mp.Entries[0].Value)
+		if ok1 && ok2 && kk == strings.TrimSpace(ktext) && xx == xtext {
+			r = ""
+		}
+	}()
 	pairHazardMemo[key] = r
 	return r
 }
